@@ -303,7 +303,12 @@ func buildPNG(c Case, variant int) Built {
 			add(gen.Chunk(ancTypes[(k+variant)%len(ancTypes)], gen.Payload(n, uint32(k), true)))
 		case "iCCP":
 			hasICC = true
+			// profile names are Latin-1: printable ASCII and 161..255 (PNG 11.3.3.3); every other
+			// character of a longer name is taken from the upper range
 			name := bytes.Repeat([]byte{'n'}, a.Name)
+			for q := 1; q < len(name); q += 2 {
+				name[q] = byte(0xA1 + (q*37+variant)%95)
+			}
 			z := zstreamFor(a.Z, a.Pid, variant)
 			var d []byte
 			if a.Name == 80 {
